@@ -78,31 +78,42 @@ def do_import(wt, seed, name):
     return 0
 
 
-def do_run(name, props):
+def do_run(name, props, repo="/repo"):
+    """repo = /repo (the prescribed way) or a scratch git worktree of /repo at the same commit: the checks then
+    run with FC_REPO=<worktree> on a private copy of the harness, so several changes can be evaluated at once."""
     d = os.path.join(SEEDED, name)
     m = json.load(open(os.path.join(d, "meta.json")))
     if not props:
         props = [m["property"]]
-    rc, o = sh(["git", "status", "--porcelain", "--untracked-files=no"], cwd="/repo")
+    rc, o = sh(["git", "status", "--porcelain", "--untracked-files=no"], cwd=repo)
     if o.strip():
-        print("/repo is not clean:", o)
+        print(repo, "is not clean:", o)
         return 2
-    rc, o = sh(["git", "-C", "/repo", "apply", os.path.join(d, "patch.diff")])
+    rc, o = sh(["git", "-C", repo, "apply", os.path.join(d, "patch.diff")])
     if rc != 0:
-        print("patch does not apply to /repo:", o)
+        print("patch does not apply to", repo, ":", o)
         return 2
+    head = sh(["git", "-C", repo, "rev-parse", "--short", "HEAD"])[1].strip()
     try:
         for p in props:
             t0 = time.time()
-            rc, o = sh([os.path.join(VERIF, "check"), p, "quick"], cwd=VERIF, timeout=3000)
+            env = dict(os.environ, CARGO_NET_OFFLINE="true")
+            if repo != "/repo":
+                env["FC_REPO"] = repo
+            pr = subprocess.run([os.path.join(VERIF, "check"), p, "quick"], cwd=VERIF, stdout=subprocess.PIPE,
+                                stderr=subprocess.STDOUT, text=True, timeout=4000, env=env)
+            rc, o = pr.returncode, pr.stdout
             sigs = sorted({l.split("signature:")[1].split("|")[0].strip() for l in o.splitlines() if "signature:" in l})
             verdict = {0: "missed", 1: "caught", 2: "tool-error"}.get(rc, "rc%d" % rc)
-            m["checks"][p] = {"result": verdict, "signatures": sigs[:6], "seconds": round(time.time() - t0)}
+            m["checks"][p] = {"result": verdict, "signatures": sigs[:6], "seconds": round(time.time() - t0),
+                              "ran": "git -C %s apply patch.diff; %s./check %s quick; git checkout -- . (tree at %s)" %
+                                     (repo, ("FC_REPO=%s " % repo) if repo != "/repo" else "", p, head)}
             print(name, p, verdict, sigs[:4])
             if rc == 2:
                 print(o[-1500:])
     finally:
-        sh(["git", "-C", "/repo", "checkout", "--", "."])
+        sh(["git", "-C", repo, "checkout", "--", "."])
+    # several workers may update different meta files concurrently; each file has one writer
     json.dump(m, open(os.path.join(d, "meta.json"), "w"), indent=1)
     return 0
 
@@ -133,4 +144,9 @@ if __name__ == "__main__":
     if sys.argv[1] == "import":
         sys.exit(do_import(sys.argv[2], sys.argv[3], sys.argv[4]))
     elif sys.argv[1] == "run":
-        sys.exit(do_run(sys.argv[2], sys.argv[3:]))
+        args = sys.argv[2:]
+        repo = "/repo"
+        if args[0] == "--repo":
+            repo = args[1]
+            args = args[2:]
+        sys.exit(do_run(args[0], args[1:], repo))
